@@ -137,6 +137,31 @@ func ruleRecordProtection13(c *Ctx, r *Report) {
 			return nil, nil
 		}
 		al, _ := call.Call.Args[0].(*ssa.Alloc)
+		if hv.site != nil && al == nil {
+			// inside the helper the header is a pointer parameter: the caller's cell itself
+			if pp, isP := call.Call.Args[0].(*ssa.Parameter); isP {
+				writes := false
+				for _, ref := range *pp.Referrers() {
+					switch y := ref.(type) {
+					case *ssa.FieldAddr:
+						for _, r2 := range *y.Referrers() {
+							if st, isSt := r2.(*ssa.Store); isSt && st.Addr == ssa.Value(y) {
+								writes = true
+							}
+						}
+					case *ssa.Store:
+						writes = true
+					case *ssa.Call:
+						if y != call {
+							writes = true // handed on to something else
+						}
+					}
+				}
+				if cell, isAl := bound(hv, pp).(*ssa.Alloc); isAl && !writes {
+					return cell, hv.site
+				}
+			}
+		}
 		if hv.site == nil || al == nil {
 			return al, call
 		}
@@ -371,12 +396,8 @@ func ruleRecordProtection13(c *Ctx, r *Report) {
 		ok := len(nc) == 1 && len(en) == 1
 		if ok {
 			ok = isParam(nc[0].Call.Args[0], "sequenceNumberKey") && en[0].Call.Value == resultValue(nc[0], 0)
-			sl, isSl := en[0].Call.Args[1].(*ssa.Slice)
-			hi := int64(-1)
-			if isSl && sl.High != nil {
-				hi, _ = constInt(sl.High)
-			}
-			ok = ok && isSl && isParam(sl.X, "encryptedRecord") && sl.Low == nil && hi == 16
+			pr, lo, hi, isRange := paramRange(en[0].Call.Args[1], 0)
+			ok = ok && isRange && pr.Name() == "encryptedRecord" && pr.Parent() == fn && lo == 0 && hi == 16
 			mk := en[0].Call.Args[0]
 			ok = ok && isFreshZeroBuf(mk) && successValueIs(fn, mk)
 		}
@@ -391,18 +412,8 @@ func ruleRecordProtection13(c *Ctx, r *Report) {
 		why := "call structure"
 		if ok {
 			sliceOf := func(v ssa.Value, lo, hi int64) bool {
-				sl, isSl := v.(*ssa.Slice)
-				if !isSl || !isParam(sl.X, "encryptedRecord") {
-					return false
-				}
-				l, h := int64(0), int64(-1)
-				if sl.Low != nil {
-					l, _ = constInt(sl.Low)
-				}
-				if sl.High != nil {
-					h, _ = constInt(sl.High)
-				}
-				return l == lo && h == hi
+				pr, l, h, isRange := paramRange(v, 0)
+				return isRange && pr.Name() == "encryptedRecord" && pr.Parent() == fn && l == lo && h == hi
 			}
 			cipher := resultValue(nc[0], 0)
 			okKey := isParam(nc[0].Call.Args[0], "sequenceNumberKey") && sliceOf(nc[0].Call.Args[1], 4, 16)
@@ -461,11 +472,30 @@ func ruleRecordProtection13(c *Ctx, r *Report) {
 				}
 				cs := bytesOf(other, 2, 0)
 				d := fmt.Sprintf("%s|%s", cs[0].src, cs[1].src)
+				// the form belongs to its header: the 16-bit update is out of reach without the
+				// S bit, the 8-bit one with it
+				wrongForm := func(sbit bool) bool {
+					w := (&Walk{Fn: fn, Assume: func(v ssa.Value) (Val, bool) {
+						if _, f, _, isL := fieldLoad(v); isL && f == "SeqBit" {
+							return vBool(sbit), true
+						}
+						return unknown, false
+					}}).FromEntry()
+					return w.Reached[st] || w.overflow
+				}
 				switch {
 				case !masked && d == "mask[0]|mask[1]":
-					want16 = true
+					if wrongForm(false) {
+						got[len(got)-1] += " (reached without the S bit)"
+					} else {
+						want16 = true
+					}
 				case masked && d == "|mask[0]":
-					want8 = true
+					if wrongForm(true) {
+						got[len(got)-1] += " (reached with the S bit set)"
+					} else {
+						want8 = true
+					}
 				default:
 					got[len(got)-1] += " (bytes " + d + ")"
 				}
@@ -689,6 +719,16 @@ func nonceXorShape(fn *ssa.Function, st *ssa.Store, ia *ssa.IndexAddr, nonce ssa
 		}
 	}
 	if seqArr == nil {
+		// or byte(sequenceNumber >> (56 - 8*j)): byte j of the big-endian number, computed in place
+		if j := bigEndianByteIndex(other, "sequenceNumber"); j != nil {
+			if why, ok := nonceIndexIs(ia, nonce, j); !ok {
+				return why, false
+			}
+			if !loopCoversZeroTo(j, 8) {
+				return "the loop does not cover exactly the 8 sequence-number bytes", false
+			}
+			return "nonce[len-8+i] ^= byte(sequenceNumber >> (56-8*i)) for i in 0..7", true
+		}
 		return "XOR operand is not an element of the sequence-number bytes", false
 	}
 	// resolve the array to its cell
@@ -736,7 +776,102 @@ func nonceXorShape(fn *ssa.Function, st *ssa.Store, ia *ssa.IndexAddr, nonce ssa
 	if puts != 1 {
 		return "sequence-number buffer is not filled by exactly one BigEndian.PutUint64(sequenceNumber)", false
 	}
-	// idx = (len(nonce) - 8) + j
+	if why, ok := nonceIndexIs(ia, nonce, j); !ok {
+		return why, false
+	}
+	// j ranges over 0..7: j = phi(-1, j+1)+1 with j < 8, or phi(0, j+1) with j < 8
+	if !loopCoversZeroTo(j, 8) {
+		return "the loop does not cover exactly the 8 sequence-number bytes", false
+	}
+	return "nonce[len-8+i] ^= BigEndian(sequenceNumber)[i] for i in 0..7", true
+}
+
+// paramRange resolves a byte-slice value to a constant range [lo, hi) of a parameter of the
+// function it is used in (hi = -1: to the end), through nested slicing and through a helper of
+// the module whose only non-nil result #0 is such a range of its own parameter.
+func paramRange(v ssa.Value, d int) (*ssa.Parameter, int64, int64, bool) {
+	switch x := unspill(v).(type) {
+	case *ssa.Parameter:
+		return x, 0, -1, true
+	case *ssa.Slice:
+		p, lo, hi, ok := paramRange(x.X, d)
+		if !ok {
+			return nil, 0, 0, false
+		}
+		l, h := int64(0), int64(-1)
+		if x.Low != nil {
+			k, isK := constInt(x.Low)
+			if !isK {
+				return nil, 0, 0, false
+			}
+			l = k
+		}
+		if x.High != nil {
+			k, isK := constInt(x.High)
+			if !isK {
+				return nil, 0, 0, false
+			}
+			h = k
+		}
+		nlo, nhi := lo+l, hi
+		if h >= 0 {
+			nhi = lo + h
+		}
+		if nhi >= 0 && nlo > nhi {
+			return nil, 0, 0, false
+		}
+		return p, nlo, nhi, true
+	case *ssa.Extract:
+		call, ok := x.Tuple.(*ssa.Call)
+		if !ok || x.Index != 0 || d > 2 {
+			return nil, 0, 0, false
+		}
+		g := call.Call.StaticCallee()
+		if g == nil || len(g.Blocks) == 0 || !inModule(g) {
+			return nil, 0, 0, false
+		}
+		var retv ssa.Value
+		for _, b := range g.Blocks {
+			ret, isRet := b.Instrs[len(b.Instrs)-1].(*ssa.Return)
+			if !isRet || b == g.Recover || len(ret.Results) == 0 {
+				continue
+			}
+			rv := unspill(ret.Results[0])
+			if isNilConst(rv) {
+				continue
+			}
+			if retv != nil && retv != rv {
+				return nil, 0, 0, false
+			}
+			retv = rv
+		}
+		if retv == nil {
+			return nil, 0, 0, false
+		}
+		gp, glo, ghi, ok := paramRange(retv, d+1)
+		if !ok || gp.Parent() != g {
+			return nil, 0, 0, false
+		}
+		idx := paramIndex(gp)
+		if idx < 0 || idx >= len(call.Call.Args) {
+			return nil, 0, 0, false
+		}
+		p, lo, hi, ok := paramRange(call.Call.Args[idx], d)
+		if !ok {
+			return nil, 0, 0, false
+		}
+		nlo, nhi := lo+glo, hi
+		if ghi >= 0 {
+			nhi = lo + ghi
+		}
+		return p, nlo, nhi, true
+	}
+	return nil, 0, 0, false
+}
+
+// nonceIndexIs: the index of the nonce byte is (len(nonce) - 8) + j, or 4 + j (the IV length is
+// gated to 12, which the iv-length obligation checks).
+func nonceIndexIs(ia *ssa.IndexAddr, nonce, j ssa.Value) (string, bool) {
 	idx, ok := ia.Index.(*ssa.BinOp)
 	if !ok || idx.Op != token.ADD {
 		return "index is not len(nonce)-8+i", false
@@ -750,6 +885,12 @@ func nonceXorShape(fn *ssa.Function, st *ssa.Store, ia *ssa.IndexAddr, nonce ssa
 	default:
 		return "index does not use the same loop variable as the sequence-number byte", false
 	}
+	if k, isK := constInt(base); isK {
+		if k != 4 {
+			return fmt.Sprintf("index base is %d, not len(nonce)-8 = 4", k), false
+		}
+		return "", true
+	}
 	sub, ok := base.(*ssa.BinOp)
 	if !ok || sub.Op != token.SUB {
 		return "index base is not len(nonce)-8", false
@@ -759,11 +900,44 @@ func nonceXorShape(fn *ssa.Function, st *ssa.Store, ia *ssa.IndexAddr, nonce ssa
 	if !isC || k != 8 || !isLen || calleeName(&lc.Call) != "builtin:len" || lc.Call.Args[0] != nonce {
 		return "index base is not len(nonce)-8", false
 	}
-	// j ranges over 0..7: j = phi(-1, j+1)+1 with j < 8, or phi(0, j+1) with j < 8
-	if !loopCoversZeroTo(j, 8) {
-		return "the loop does not cover exactly the 8 sequence-number bytes", false
+	return "", true
+}
+
+// bigEndianByteIndex: v is byte(param >> (56 - 8*j)); returns j.
+func bigEndianByteIndex(v ssa.Value, param string) ssa.Value {
+	cv, ok := v.(*ssa.Convert)
+	if !ok {
+		return nil
 	}
-	return "nonce[len-8+i] ^= BigEndian(sequenceNumber)[i] for i in 0..7", true
+	if bt, isB := cv.Type().Underlying().(*types.Basic); !isB || (bt.Kind() != types.Uint8 && bt.Kind() != types.Byte) {
+		return nil
+	}
+	sh, ok := cv.X.(*ssa.BinOp)
+	if !ok || sh.Op != token.SHR {
+		return nil
+	}
+	p, ok := sh.X.(*ssa.Parameter)
+	if !ok || p.Name() != param {
+		return nil
+	}
+	amt, ok := stripConv(sh.Y).(*ssa.BinOp)
+	if !ok || amt.Op != token.SUB {
+		return nil
+	}
+	if k, isK := constInt(amt.X); !isK || k != 56 {
+		return nil
+	}
+	mul, ok := stripConv(amt.Y).(*ssa.BinOp)
+	if !ok || mul.Op != token.MUL {
+		return nil
+	}
+	if k, isK := constInt(mul.X); isK && k == 8 {
+		return stripConv(mul.Y)
+	}
+	if k, isK := constInt(mul.Y); isK && k == 8 {
+		return stripConv(mul.X)
+	}
+	return nil
 }
 
 // loopCoversZeroTo recognises the two SSA forms of `for i := 0; i < n; i++` / `for i := range [n]T`.
@@ -803,7 +977,7 @@ func loopCoversZeroTo(j ssa.Value, n int64) bool {
 		if len(x.Edges) != 2 {
 			return false
 		}
-		okInit, okStep := false, false
+		okInit, okStep, rotated := false, false, false
 		for _, e := range x.Edges {
 			if k, isK := constInt(e); isK && k == 0 {
 				okInit = true
@@ -811,10 +985,12 @@ func loopCoversZeroTo(j ssa.Value, n int64) bool {
 			if bo, ok := e.(*ssa.BinOp); ok && bo.Op == token.ADD && bo.X == ssa.Value(x) {
 				if one, isC := constInt(bo.Y); isC && one == 1 {
 					okStep = true
+					// rotated loop (range over an integer): the test sits at the bottom, on i+1
+					rotated = bound(bo)
 				}
 			}
 		}
-		return okInit && okStep && bound(x)
+		return okInit && okStep && (bound(x) || rotated)
 	}
 	return false
 }
@@ -869,6 +1045,68 @@ func ruleLowBits13(c *Ctx, r *Report) {
 		}
 	}
 	var widths []string
+	// one comparison under a mask selected by the S bit: wire&m != seq&m with m = S ? 0xffff : 0xff
+	selected := func(v ssa.Value) (ssa.Value, *ssa.Phi) {
+		and, ok := stripConv(v).(*ssa.BinOp)
+		if !ok || and.Op != token.AND {
+			return nil, nil
+		}
+		if phi, isPhi := stripConv(and.Y).(*ssa.Phi); isPhi {
+			return stripConv(and.X), phi
+		}
+		if phi, isPhi := stripConv(and.X).(*ssa.Phi); isPhi {
+			return stripConv(and.Y), phi
+		}
+		return nil, nil
+	}
+	for _, bo := range cmps {
+		a, pa := selected(bo.X)
+		b, pb := selected(bo.Y)
+		if pa == nil || pa != pb {
+			continue
+		}
+		if _, isP := a.(*ssa.Parameter); isP {
+			a, b = b, a
+		}
+		_, fa, _, la := fieldLoad(a)
+		p, isP := b.(*ssa.Parameter)
+		if !la || fa != "SequenceNumber" || !isP || p.Name() != "sequenceNumber" {
+			continue
+		}
+		mismatch := vBool(bo.Op == token.NEQ)
+		for _, sbit := range []bool{true, false} {
+			want := int64(0xff)
+			if sbit {
+				want = 0xffff
+			}
+			w := (&Walk{Fn: fn, Assume: func(v ssa.Value) (Val, bool) {
+				if v == ssa.Value(bo) {
+					return mismatch, true
+				}
+				if _, f, _, isL := fieldLoad(v); isL && f == "SeqBit" {
+					return vBool(sbit), true
+				}
+				return unknown, false
+			}}).FromEntry()
+			okSel := len(w.Returns) > 0 && !w.overflow
+			for _, ro := range w.Returns {
+				k, isK := constInt(ro.RawEnv[pa])
+				if !isK || k != want {
+					okSel = false
+				}
+				if len(ro.Vals) == 1 && ro.Vals[0].Kind == 2 && ro.Vals[0].B {
+					okSel = false // a mismatch under this mask is accepted
+				}
+			}
+			if okSel {
+				widths = append(widths, fmt.Sprintf("%#x", want))
+			} else {
+				widths = append(widths, fmt.Sprintf("S=%v:mask-or-mismatch", sbit))
+			}
+		}
+		cmps = nil
+		break
+	}
 	for _, bo := range cmps {
 		a, ma := maskOf(bo.X)
 		b, mb := maskOf(bo.Y)
@@ -901,6 +1139,29 @@ func ruleLowBits13(c *Ctx, r *Report) {
 		}
 		if !okErr {
 			widths = append(widths, fmt.Sprintf("%#x:mismatch-accepted", ma))
+			continue
+		}
+		// and it is the comparison of its own header form: with the S bit set (16 bits on the
+		// wire) no success is reachable round the 16-bit comparison, without it none round the
+		// 8-bit one
+		sbit := ma == 0xffff
+		cmp := bo
+		wS := &Walk{Fn: fn, Assume: func(v ssa.Value) (Val, bool) {
+			if _, f, _, isL := fieldLoad(v); isL && f == "SeqBit" {
+				return vBool(sbit), true
+			}
+			return unknown, false
+		}}
+		wS.Visit = func(in ssa.Instruction, _ Env) bool { return in != ssa.Instruction(cmp) }
+		wS.FromEntry()
+		round := false
+		for _, ro := range wS.Returns {
+			if len(ro.Vals) == 1 && !(ro.Vals[0].Kind == 2 && !ro.Vals[0].B) {
+				round = true
+			}
+		}
+		if round || wS.overflow {
+			widths = append(widths, fmt.Sprintf("%#x:not-the-comparison-of-S=%v", ma, sbit))
 			continue
 		}
 		widths = append(widths, fmt.Sprintf("%#x", ma))
